@@ -90,6 +90,7 @@ def specIn (ext : Ext F) (inputs : List (InputDef F)) : Nat â†’ InT â†’ Val F â†
                 | some ov =>
                   if ov.isNil then
                     (match f.dflt, f.type with
+                     | some _, .nonNull _ => (f.name, Exp.refuse)   -- an explicit null is not replaced by the default
                      | some _, _ => (f.name, Exp.free)
                      | none, .nonNull _ => (f.name, Exp.refuse)
                      | none, _ => (f.name, Exp.must (.go .nil)))
